@@ -64,8 +64,11 @@ def run(ctx):
     rr = _random.Random(ctx.seed * 7 + 14)
     seeds = [rr.randint(1, 10 ** 9) for _ in range(60 if ctx.tier == "quick" else 1500)]
     e2e.parallel(lambda sd: e2e.c14_entry_case(ctx, sd), seeds)
-    # ... and names that differ in any other way (letter case, dots inside a component) stay two files at those entry points
     from .c07 import safe
+    # ... the dyndep file: its statement, implicit outputs and implicit inputs
+    seeds = [rr.randint(1, 10 ** 9) for _ in range(40 if ctx.tier == "quick" else 1000)]
+    e2e.parallel(lambda sd: safe(ctx, e2e.c14_dyndep_case, ctx, sd), seeds)
+    # ... and names that differ in any other way (letter case, dots inside a component) stay two files at those entry points
     seeds = [rr.randint(1, 10 ** 9) for _ in range(60 if ctx.tier == "quick" else 1500)]
     e2e.parallel(lambda sd: safe(ctx, e2e.c14_distinct_case, ctx, sd), seeds)
 
